@@ -40,6 +40,10 @@ def generate(tier, rng):
         if mname in (b"TRACE", b"HEAD"):
             continue
         target = b"/" + rng.bytes(rng.range(0, 30), G.VALCH)
+        if rng.chance(1, 6):
+            # the names of the framing headers are ordinary text in a request target
+            target = rng.choice([b"/rfc7230/Content-Length.txt", b"/wiki/Transfer-Encoding?action=edit", b"/Content-Length",
+                                 b"/a?Transfer-Encoding=chunked", b"/docs/Host/Expect#Content-Length:"]) + rng.bytes(rng.range(0, 4), G.VALCH)
         version = rng.choice([b"11", b"10", b"12"])
         pairs = [(b"Host", b"h")]
         ids = []
@@ -72,6 +76,8 @@ def generate(tier, rng):
         reason = rng.bytes(rng.range(1, 12), G.VALCH + b" ").strip() if custom else None
         if custom and not reason:
             reason = b"R"
+        if custom and rng.chance(1, 4):
+            reason = rng.choice([b"Content-Length Required", b"Transfer-Encoding Not Supported", b"No Content-Length:", b"Bad Transfer-Encoding: x"])
         ids = []
         for _ in range(rng.range(0, 4)):
             hid = rng.below(NHDR)
